@@ -347,8 +347,8 @@ class TraceChainsConnect(Contract):
             post = _StateFns.of(T, C, {})
             chg = ctx().fresh("suffix_changed", "Bool")
             wt, wf = suffix_rel(pre, post, dF.t)
-            ctx().assume(z3.Implies(chg, z3.And(*[g for _, g in wt])))
-            ctx().assume(z3.Implies(z3.Not(chg), z3.And(*[g for _, g in wf])))
+            ctx().axiom("callee contract of add_chain_suffix (proved as AddChainSuffix): relational postcondition for the outcome True", z3.Implies(chg, z3.And(*[g for _, g in wt])))
+            ctx().axiom("callee contract of add_chain_suffix (proved as AddChainSuffix): relational postcondition for the outcome False", z3.Implies(z3.Not(chg), z3.And(*[g for _, g in wf])))
             rec["calls"].append(("suffix", pre))
             return sym.SB(chg)
 
@@ -367,8 +367,8 @@ class TraceChainsConnect(Contract):
             post = _StateFns.of(T, C, {})
             att = ctx().fresh("prefix_attached", "Bool")
             wa, wd = prefix_rel(pre, post, dQ.t, form == "both")
-            ctx().assume(z3.Implies(att, z3.And(*[g for _, g in wa])))
-            ctx().assume(z3.Implies(z3.Not(att), z3.And(*[g for _, g in wd])))
+            ctx().axiom(f"callee contract of add_chain_prefix (proved as AddChainPrefix, form {form}): relational postcondition when it attaches", z3.Implies(att, z3.And(*[g for _, g in wa])))
+            ctx().axiom(f"callee contract of add_chain_prefix (proved as AddChainPrefix, form {form}): relational postcondition when it declines", z3.Implies(z3.Not(att), z3.And(*[g for _, g in wd])))
             rec["calls"].append(("prefix", form))
             return None
 
